@@ -145,6 +145,26 @@ func c03Units(ctx *core.Ctx) []core.Unit {
 				}
 			}
 			check("default", s)
+			// the same argument objects proved twice: the second proof must equal the first (and the reference)
+			{
+				is := s.build(c)
+				for round := 1; round <= 2; round++ {
+					in := fmt.Sprintf("%s proved with the same Cs/fs/zs objects, call %d", s.String(), round)
+					var proof *multiproof.MultiProof
+					var err error
+					if !timed(r, "c03.panic", "CreateMultiProof", in, func() {
+						proof, err = multiproof.CreateMultiProof(common.NewTranscript(s.label), c, is.Cs, is.fs, is.zs)
+					}) {
+						break
+					}
+					r.Evals++
+					r.Nontrivial++
+					if err != nil || hx(proofBytes(proof)) != hx(want) {
+						vio(r, "c03.bytes", "CreateMultiProof", in, "reference proof bytes "+hx(want), fmt.Sprintf("err=%v (different bytes)", err))
+						break
+					}
+				}
+			}
 			if vsched.Instrumented {
 				for _, k := range []int{1, 2, 3, 16, 17, 64, 300} {
 					vsched.SetNumCPU(k)
